@@ -122,6 +122,8 @@ static PAIRS: [AtomicU8; NSITES * NSITES] = [Z8; NSITES * NSITES];
 static LAST: AtomicU32 = AtomicU32::new(u32::MAX);
 static TRACK_PAIRS: AtomicBool = AtomicBool::new(false);
 pub static STALLS_FIRED: AtomicU64 = AtomicU64::new(0);
+/// number of times any thread reached the point just before a blocking wait / park
+pub static B_WAITS: AtomicU64 = AtomicU64::new(0);
 
 static HARNESS_ERR: Mutex<Option<String>> = Mutex::new(None);
 
@@ -296,6 +298,9 @@ pub fn freeze_active() -> bool {
 }
 
 pub fn callback(s: u32) {
+    if s == site::B_BEFORE_WAIT {
+        B_WAITS.fetch_add(1, Relaxed);
+    }
     // fast exit when the thread has no context (e.g. harness main thread outside runs)
     let mut fire: Option<u32> = None;
     let mut bound: Option<StepBound> = None;
